@@ -76,9 +76,12 @@ def rule_c20(an, res):
                       'effects on the empty path: %s' % [repr(e) for e in effs][:4])
                 continue
             if top.loops:
-                res.ob('R-RESET-COMPLETE', ok=False)
-                V(res, prop, 'R-RESET-COMPLETE', cm, m.key(), 'clear() contains a loop the reset analysis does not model', site_of_seg(top, m), val)
-                continue
+                nl = numbering_loops(top.path, THIS(roles.order)) if roles.order else 2
+                if nl != len(top.loops):
+                    res.ob('R-RESET-COMPLETE', ok=False)
+                    V(res, prop, 'R-RESET-COMPLETE', cm, m.key(), 'clear() contains a loop that is not an exact re-numbering of the whole slot list',
+                      site_of_seg(top, m), val)
+                    continue
             for comp, wit in sorted(mutable.items()):
                 ok, why = reset_ok(comp, effs, roles, L)
                 res.ob('R-RESET-COMPLETE', ok=ok)
@@ -226,7 +229,10 @@ def body_summary(b, roles, subst):
                 d[k] = v
         effs.append((e.kind, tuple(sorted((k, str(v)) for k, v in d.items()))))
     out = outcome(b, roles)
-    ys = [show(canon(out, subst, counter))] if out is not None else []
+    if out is not None and isinstance(out, tuple) and out and out[0] in ('ctor', 'global') and empty_result(out):
+        ys = ['<absent>']            # {}, std::nullopt, optional<T>{} ...
+    else:
+        ys = [show(canon(out, subst, counter))] if out is not None else []
     return (tuple(conds), tuple(effs), tuple(ys))
 
 
@@ -234,6 +240,26 @@ def empty_result(y):
     """the 'absent' answer of a lookup: an empty optional however it is spelled ({}, std::nullopt, optional<T>{}) or false"""
     from symex import opt_content
     return y == ('bool', False) or opt_content(y) == (False, None) or (isinstance(y, tuple) and y[0] == 'ctor' and not y[2])
+
+
+def deliveries(seg):
+    """(key, value, effect) for every answer a range-lookup iteration hands to the caller: output.emplace_back(k, r) /
+    push_back(pair) (the pair's second possibly assigned afterwards through the reference emplace_back returned), or a store into
+    the caller's own range element"""
+    out = []
+    for e in seg.effects:
+        if e.kind == 'OUT_CALL' and e.name in ('emplace_back', 'push_back') and len(e.args) == 2:
+            out.append([e.args[0], e.args[1], e, getattr(e, 'res', None)])
+        elif e.kind == 'OUT_WR' and not (isinstance(e.loc, tuple) and e.loc[0] == 'p'):
+            loc = e.loc
+            hit = None
+            if isinstance(loc, tuple) and loc[0] == 'fld' and loc[2] == 'second':
+                hit = next((d for d in out if d[3] is not None and loc[1] == d[3]), None)
+            if hit is not None:
+                hit[1] = e.val            # slot.second = r  on the element just appended
+            else:
+                out.append([None, e.val, e, None])
+    return [tuple(d[:3]) for d in out]
 
 
 def outcome(b, roles):
@@ -244,12 +270,8 @@ def outcome(b, roles):
         d = seg.decided(seg.ret) if isinstance(seg.ret, tuple) and seg.ret and seg.ret[0] in ('cmp', 'not', 'pred', 'hasval') else None
         return ('bool', d) if d is not None else seg.ret
     if k == 'FIND':
-        for e in seg.effects:
-            if e.kind == 'OUT_CALL' and e.name in ('emplace_back', 'push_back') and len(e.args) == 2:
-                return e.args[1]
-            if e.kind == 'OUT_WR' and not (isinstance(e.loc, tuple) and e.loc[0] == 'p'):
-                return e.val
-        return None
+        d = deliveries(seg)
+        return d[-1][1] if d else None
     from rules_seq import tally_info
     name, incs = tally_info(b.top, b)
     n = len([e for e in incs if e.how != 'decl'])
@@ -355,13 +377,15 @@ def check_plumbing(res, prop, cm, roles, m, top, b):
         outs = [e for e in outs if not (e.kind == 'OUT_WR' and isinstance(e.loc, tuple) and e.loc[0] in ('p',) )]
         res_terms = [e[1] for e in seg.events if e[0] == 'ret']
         good = False
-        if len(outs) == 1:
-            o = outs[0]
-            if o.kind == 'OUT_CALL' and o.name in ('emplace_back', 'push_back') and len(o.args) == 2:
-                good = o.args[0] == key and bool(res_terms) and o.args[1] == res_terms[-1]
+        dl = deliveries(seg)
+        if len(dl) == 1:
+            dk, dv, o = dl[0]
+            same_val = bool(res_terms) and (dv == res_terms[-1] or (empty_result(dv) and empty_result(res_terms[-1])))
+            if o.kind == 'OUT_CALL':
+                good = dk == key and same_val
             elif o.kind == 'OUT_WR':
                 # the element's own optional / bool, same element as the key
-                good = bool(res_terms) and o.val == res_terms[-1] and same_element(o.loc, key)
+                good = same_val and same_element(o.loc, key)
         res.ob('R-SIB-PLUMB', ok=good)
         if not good:
             V(res, prop, 'R-SIB-PLUMB', cm, b.where, 'lookup result is not delivered once, paired with its own key', first_site(outs, seg, m),
@@ -602,7 +626,17 @@ def check_lookup(res, prop, cm, roles, m, b):
     if not ok:
         V(res, prop, 'R-LOOKUP-PROV', cm, b.where, 'index is consulted with something other than the call\'s key', site_of_seg(seg, m), 'looked up: %s' % show(key))
     y = outcome(b, roles)
+    if y is None:
+        # a range lookup whose per-element answer reaches neither the returned container nor the caller's element
+        res.ob('R-LOOKUP-PROV', ok=False)
+        V(res, prop, 'R-LOOKUP-PROV', cm, b.where, 'the element\'s lookup result is not delivered to the caller', site_of_seg(seg, m),
+          'path [%s]: the answer for this element is neither appended to the output nor stored into the caller\'s range element '
+          '(stored into a local copy?)' % val)
+        return
     if not (isinstance(y, tuple) and y and y[0] in ('ctor', 'bool')):
+        import os
+        if os.environ.get('CAPCHECK_DEBUG_OUTCOME'):
+            print('OUTCOME?', cm.name, b.where, show(y))
         return
     L = seg.L
     if present is True:
@@ -803,8 +837,16 @@ def numbering_loops(path, c):
         if e[0] != 'loop':
             continue
         lp = e[1]
+        def names_c(loc):
+            if root_of(loc) == root_of(c):
+                return True
+            # *it with `it` a local that started at c.begin()
+            if loc[0] == 'deref' and isinstance(loc[1], tuple) and loc[1] and loc[1][0] == 'lv':
+                iv = next((v for k, v in init.items() if k[1] == loc[1][1]), None)
+                return isinstance(iv, tuple) and iv and iv[0] == 'q' and iv[1] in ('begin', 'cbegin') and iv[2] == c
+            return False
         writes = [x for it in lp.iters for x in it.trace if x[0] == 'wr' and isinstance(x[1], tuple) and x[1][0] in ('elem', 'deref', 'idx')
-                  and root_of(x[1]) == root_of(c)]
+                  and names_c(x[1])]
         if not writes:
             continue
         its = [it for it in lp.iters if it.status != 'exit']
@@ -816,6 +858,41 @@ def numbering_loops(path, c):
             steps = [x for x in its[0].trace if x[0] == 'lwr']
             ok = (w[1] == ('elem', c, lp.id) and isinstance(v, tuple) and v[0] == 'lv' and len(steps) == 1
                   and steps[0][1][1] == v[1] and steps[0][2] == ('add', v, 1) and init.get(steps[0][1]) == ('int', 0))
+        if not ok and lp.kind == 'for' and len(its) == 1 and its[0].status == 'continue' and len(writes) == 1:
+            # for (i = 0; i < c.size() [or capacity]; ++i) c[i] = i;
+            w = writes[0]
+            v = w[2]
+            tr = its[0].trace
+            steps = [x for x in tr if x[0] == 'lwr']
+            conds = [x for x in tr if x[0] == 'cond']
+            bound_ok = False
+            if len(conds) == 1 and conds[0][2] is True and isinstance(conds[0][1], tuple) and conds[0][1][0] == 'cmp':
+                op, a, b = conds[0][1][1], conds[0][1][2], conds[0][1][3]
+                whole = (isinstance(b, tuple) and ((b[0] == 'q' and b[1] == 'size' and b[2] == c) or b == ('p', 'capacity')))
+                bound_ok = (op == '<' and a == v and whole) or (op == '!=' and a == v and whole)
+                if not bound_ok and op == '>' and b == v:
+                    whole = (isinstance(a, tuple) and ((a[0] == 'q' and a[1] == 'size' and a[2] == c) or a == ('p', 'capacity')))
+                    bound_ok = whole
+            ok = (isinstance(v, tuple) and v[0] == 'lv' and w[1] == ('idx', c, v) and len(steps) == 1 and steps[0][1][1] == v[1]
+                  and steps[0][2] == ('add', v, 1) and init.get(steps[0][1]) == ('int', 0) and bound_ok
+                  and tr.index(w) < tr.index(steps[0]))
+        if not ok and lp.kind == 'for' and len(its) == 1 and its[0].status == 'continue' and len(writes) == 1 and writes[0][1][0] == 'deref':
+            # for (it = c.begin(); it != c.end(); ++it) *it = i++;
+            w = writes[0]
+            v = w[2]
+            itv = w[1][1]
+            tr = its[0].trace
+            steps = [x for x in tr if x[0] == 'lwr']
+            conds = [x for x in tr if x[0] == 'cond']
+            cnt = [x for x in steps if isinstance(v, tuple) and v[0] == 'lv' and x[1][1] == v[1]]
+            adv = [x for x in steps if x[1][1] == itv[1]]
+            bound_ok = (len(conds) == 1 and conds[0][2] is True and isinstance(conds[0][1], tuple) and conds[0][1][0] == 'cmp'
+                        and conds[0][1][1] == '!=' and conds[0][1][2] == itv and isinstance(conds[0][1][3], tuple)
+                        and conds[0][1][3][0] == 'q' and conds[0][1][3][1] in ('end', 'cend') and conds[0][1][3][2] == c)
+            ok = (isinstance(v, tuple) and v[0] == 'lv' and len(steps) == 2 and len(cnt) == 1 and len(adv) == 1
+                  and cnt[0][2] == ('add', v, 1) and init.get(cnt[0][1]) == ('int', 0)
+                  and isinstance(adv[0][2], tuple) and adv[0][2][0] == 'adv' and adv[0][2][1] == 1 and adv[0][2][2] == itv and bound_ok)
+            # element receives the pre-increment value: `*it = i++` logs the step before the store but stores the old value (v is the lv itself)
         n += 1 if ok else 2
     return n
 
@@ -905,7 +982,7 @@ def check_no_rehash(an, res, prop, cm, roles):
 
 # ---------------------------------------------------------------------------------------------- C08
 
-BOUND_KINDS = ('FOUND', 'BACK', 'AUXHEAD', 'RANDPOS', 'LV', 'VIA', 'TTLOF', 'FROMEND', 'FRONT', 'POSOF', 'NEW')
+BOUND_KINDS = ('FOUND', 'BACK', 'AUXHEAD', 'RANDPOS', 'LV', 'VIA', 'TTLOF', 'FROMEND', 'FRONT', 'POSOF', 'NEW', 'AUXNODE')
 
 
 def rule_c08(an, res):
